@@ -67,7 +67,8 @@ Record body_oracle := mkBody {
   b_tf     : option err;   (* what the client's responseBodyTransformer returns on the bytes read (None: none installed / ok) *)
   b_um_res : option err;   (* what the unmarshal function returns on the body for Request.Result *)
   b_um_req : option err;   (* ... for Request.Error *)
-  b_um_com : option err    (* ... for a new value of the client's common error type *)
+  b_um_com : option err;   (* ... for a new value of the client's common error type *)
+  b_write  : option err    (* what writing the body to the download target (SetOutput / SetOutputFile) returns *)
 }.
 
 (* Response.ToBytes *)
@@ -159,7 +160,9 @@ Inductive wret :=
 Inductive wrap :=
 | WPass
 | WShort (nilresp : bool) (set ret : option err)   (* does not call the inner round-tripper *)
-| WPost (set : option err) (ret : wret).           (* calls it, may set resp.Err, chooses what to return *)
+| WPost (set : option err) (ret : wret)            (* calls it, may set resp.Err, chooses what to return *)
+| WFab (status : Z) (chk : option Z)               (* does not call it: returns a response it made up, (resp, nil) *)
+| WTwice.                                          (* calls it twice and returns what the second call returned *)
 
 Inductive event :=
 | EvUd (i : nat)          (* user request middleware i invoked *)
@@ -178,7 +181,8 @@ Record config := mkCfg {
   c_onerror  : option hookb;     (* client.onError, if set: what the user's hook does *)
   c_retry    : option (Z * nat); (* retryOption: MaxRetries, number of RetryHooks *)
   c_reqerr   : option err;       (* Request.error collected by the setters *)
-  c_unreplayable : bool          (* Request.unReplayableBody != nil (SetBody(io.Reader)) *)
+  c_unreplayable : bool;         (* Request.unReplayableBody != nil (SetBody(io.Reader)) *)
+  c_save     : bool              (* Request.isSaveResponse (SetOutput / SetOutputFile); then c_autoread is false *)
 }.
 
 Record attempt := mkAttempt {
@@ -187,6 +191,7 @@ Record attempt := mkAttempt {
   a_wraps   : list wrap;           (* client.roundTripWrappers, registration order *)
   a_getbody : option err;          (* r.GetBody() in Client.roundTrip *)
   a_transport : tout;
+  a_transport2 : tout;             (* what the transport answers to any further call within the attempt (WTwice) *)
   a_cli     : list mw;             (* user part of client.afterResponse (after parseResponseBody, handleDownload) *)
   a_req     : list mw;             (* Request.afterResponse *)
   a_conds   : list bool;           (* verdicts of the custom RetryConditions (registration order) after this attempt; [] = none registered *)
@@ -204,7 +209,7 @@ Inductive flavour := Fixed | Pinned.
 (* resp.Response = answer; auto-read (shared by roundTrip and the digest re-send) *)
 Definition receive (t : tout) (r : response) : response * option err * body_oracle :=
   match t with
-  | TFail e => (set_http false 0 None r, Some e, mkBody None None None None None)
+  | TFail e => (set_http false 0 None r, Some e, mkBody None None None None None None)
   | TResp s chk b =>
     let r1 := set_http true s chk r in
     (r1, None, b)
@@ -295,21 +300,31 @@ Fixpoint run_cli (fl : flavour) (cfg : config) (ms : list mw) (i : nat) (r : res
 
 (* Client.roundTrip: returns (resp, err) with err = resp.Err (deferred reconciliation: no path
    assigns err before the deferred function runs) *)
-Definition round_trip (fl : flavour) (cfg : config) (a : attempt) : option response * option err * list event :=
+(* handleDownload: the body goes to the request's output - from the cache when it was read
+   (a result target made parseResponseBody read it), else streamed from resp.Body *)
+Definition handle_download (cfg : config) (b : body_oracle) (r : response) : option err :=
+  if negb (r_present r) || negb (c_save cfg) then None
+  else if r_cached r then b_write b
+  else match b_read b with Some e => Some e | None => b_write b end.
+
+Definition round_trip_with (fl : flavour) (cfg : config) (a : attempt) (t : tout) : option response * option err * list event :=
   let r0 := fresh_resp in
   match a_getbody a with
   | Some e => let r := set_err (Some e) r0 in (Some r, r_err r, [])
   | None =>
-    let '(r1, e, b) := receive (a_transport a) r0 in
+    let '(r1, e, b) := receive t r0 in
     let r2 := set_err e r1 in                                (* httpResponse, resp.Err = c.httpClient.Do(...) *)
     let r3 := auto_read (c_autoread cfg) autoread_status_ok b r2 in
     let '(r3d, bd, l_d) := run_cli_digests fl cfg (a_cli a) b r3 in
     (* built-in client.afterResponse: parseResponseBody, handleDownload (no output configured) *)
     let '(r4, e4) := parse_response_body (c_targets cfg) bd r3d in
     let r5 := match e4 with Some x => set_err (Some x) r4 | None => r4 end in
-    let '(r6, l) := run_cli fl cfg (a_cli a) 0 r5 in
+    let r5' := match handle_download cfg bd r5 with Some x => set_err (Some x) r5 | None => r5 end in
+    let '(r6, l) := run_cli fl cfg (a_cli a) 0 r5' in
     (Some r6, r_err r6, EvSend :: l_d ++ l)
   end.
+
+Definition round_trip (fl : flavour) (cfg : config) (a : attempt) := round_trip_with fl cfg a (a_transport a).
 
 (* ---------- wrapping round-trippers: the last registered is the outermost ---------- *)
 
@@ -321,19 +336,26 @@ Definition opt_set (s : option err) (ro : option response) : option response :=
   | _, _ => ro
   end.
 
-(* [ws] outermost first, [i] = index (registration order) of the head *)
-Fixpoint run_wraps (ws : list wrap) (i : nat) (inner : rt_out) : rt_out :=
+(* [ws] outermost first, [i] = index (registration order) of the head; [inner] = what the first
+   call of Client.roundTrip in this attempt yields, [inner2] = what any further call yields *)
+Fixpoint run_wraps (ws : list wrap) (i : nat) (inner inner2 : rt_out) : rt_out :=
   match ws with
   | [] => inner
   | w :: rest =>
     match w with
     | WPass =>
-      let '(ro, e, l) := run_wraps rest (pred i) inner in
+      let '(ro, e, l) := run_wraps rest (pred i) inner inner2 in
       (ro, e, EvWIn i :: l ++ [EvWOut i])
     | WShort nilresp s t =>
       ((if nilresp then None else Some (set_err s fresh_resp)), t, [EvWIn i; EvWOut i])
+    | WFab st chk =>
+      (Some (mkResp true st chk None false false ENone), None, [EvWIn i; EvWOut i])
+    | WTwice =>
+      let '(_, _, l1) := run_wraps rest (pred i) inner inner2 in
+      let '(ro, e, l2) := run_wraps rest (pred i) inner2 inner2 in
+      (ro, e, EvWIn i :: l1 ++ l2 ++ [EvWOut i])
     | WPost s t =>
-      let '(ro, e, l) := run_wraps rest (pred i) inner in
+      let '(ro, e, l) := run_wraps rest (pred i) inner inner2 in
       let ro1 := opt_set s ro in
       let l1 := EvWIn i :: l ++ [EvWOut i] in
       match t with
@@ -346,7 +368,7 @@ Fixpoint run_wraps (ws : list wrap) (i : nat) (inner : rt_out) : rt_out :=
   end.
 
 Definition wrapped_round_trip (fl : flavour) (cfg : config) (a : attempt) : rt_out :=
-  run_wraps (rev (a_wraps a)) (pred (length (a_wraps a))) (round_trip fl cfg a).
+  run_wraps (rev (a_wraps a)) (pred (length (a_wraps a))) (round_trip fl cfg a) (round_trip_with fl cfg a (a_transport2 a)).
 
 (* ---------- Request.do ---------- *)
 
